@@ -3,7 +3,8 @@ import json
 from .. import common, gen, oracle, modelio, pipefam, pool
 
 RULE = ("TE annotations from harness/vh/gen.py (chains whose last link is nested, identical starts, duplicates, 1-bp TEs, abutment, "
-        "shuffled rows, groups whose highest row label is their left-most element); observed at Revised_<file>.tsv and at the "
+        "shuffled rows, groups whose highest row label is their left-most element); every fourth table is revised in an output directory "
+        "already used for another annotation pair (other file names; the same genome id, one that extends it, or another); observed at Revised_<file>.tsv and at the "
         "per-chromosome *_TEData.tsv; non-trivial = some same-group overlap; distinct = canonical JSON of the TE table")
 
 
@@ -103,7 +104,11 @@ def run(chk):
     cases = pipefam.load_corpus("C02")
     for i in range(n):
         cases.append(gen.gen_pair(r, max_chrom=2, max_genes=2, max_tes=40))
-    reps = pool.run_requests([{"op": "preprocess", "case": c} for c in cases], timeout=180)
+    # every fourth case is revised in an output directory that an earlier annotation pair (other file names; the same genome id, one that extends it, or another)
+    # has been through: the revision must be that of the input given, whatever intermediates the directory holds
+    befores = [cases[i - 1] if (i % 4 == 3 and i > 0) else None for i in range(len(cases))]
+    reps = pool.run_requests([{"op": "preprocess", "case": c, "before": b, "before_genome": ["G", "G_v2", "H"][(i // 4) % 3]}
+                              for i, (c, b) in enumerate(zip(cases, befores))], timeout=180)
     try:
         models = modelio.eval_cases("c02", cases, what="revised")
         chk.oblige("model evaluation (vm_compute) of every case", True)
@@ -111,8 +116,9 @@ def run(chk):
         models = [None] * len(cases)
         chk.oblige("model evaluation (vm_compute) of every case", False, str(e))
     nv, diff_only = 0, []
-    for c, rep, m in zip(cases, reps, models):
+    for c, rep, m, b in zip(cases, reps, models, befores):
         chk.case_seen(c["tes"], gen.has_same_group_overlap(c["tes"]))
+        chk.count("output_directory:%s" % ("used_before" if b is not None else "fresh"))
         for f in c.get("features", []):
             chk.count("feature:" + f)
         fails, diffs = check_case(c, rep, m)
@@ -122,12 +128,14 @@ def run(chk):
             nv += 1
             if nv <= 2:
                 def still(cc):
-                    rp = pool.run_requests([{"op": "preprocess", "case": cc}])[0]
+                    rp = pool.run_requests([{"op": "preprocess", "case": cc, "before": b, "before_genome": bg}])[0]
                     return bool(check_case(cc, rp, None)[0])
+                bg = ["G", "G_v2", "H"][(cases.index(c) // 4) % 3]
                 small = pipefam.shrink(c, still)
-                rp = pool.run_requests([{"op": "preprocess", "case": small}])[0]
+                rp = pool.run_requests([{"op": "preprocess", "case": small, "before": b, "before_genome": bg}])[0]
                 chk.violation("revised annotation changes a group's coverage / keeps self-overlap / drops or invents a group",
-                              {"case": {k: small[k] for k in ("genes", "tes", "windows")}, "failures": check_case(small, rp, None)[0] or fails},
+                              {"case": {k: small[k] for k in ("genes", "tes", "windows")}, "failures": check_case(small, rp, None)[0] or fails,
+                               "before": None if b is None else {k: b[k] for k in ("genes", "tes", "windows")}, "before_genome": bg},
                               signature=None)
         elif diffs:
             diff_only.append((c, diffs))
@@ -144,7 +152,7 @@ def run(chk):
 
 def replay(chk, rp):
     c = rp["case"]
-    rep = pool.run_requests([{"op": "preprocess", "case": c}])[0]
+    rep = pool.run_requests([{"op": "preprocess", "case": c, "before": rp.get("before"), "before_genome": rp.get("before_genome", "G")}])[0]
     fails, _ = check_case(c, rep, None)
     print(json.dumps({"failures": fails}, indent=1))
     return 1 if fails else 0
